@@ -404,6 +404,59 @@ def c14_stage(out, tier, seed):
 
     with ThreadPoolExecutor(max_workers=4) as ex:
         list(ex.map(work, cases))
+
+    # "a fixed move time is used as given", observed at the UCI boundary with a move overhead configured:
+    # the move may not come back earlier than the move time (a lower bound on wall time cannot be
+    # faked by machine load) and the engine may not burn much more CPU than the move time.
+    def movetime_case(c):
+        pos, overhead, mt = c
+        e = Engine(binary)
+        r = {"verdict": "held"}
+        try:
+            e.send("setoption name Hash value 16")
+            e.send(f"setoption name Move Overhead value {overhead}")
+            e.send(position_cmd(pos["root"], pos["moves"]))
+            if not settle(e, 60.0):
+                return {"verdict": "inconclusive", "what": "engine not ready"}
+            cpu0, t0, n = e.cpu_ns(), now(), e.n_out()
+            e.send(f"go movetime {mt}")
+            got = e.wait_line(lambda x: x.startswith("bestmove"), n, mt / 1000.0 + 30.0)
+            t1, cpu1 = now(), e.cpu_ns()
+            if got is None:
+                v, sig, text = crash_or_hang(e, f"'go movetime {mt}' with Move Overhead {overhead}")
+                return {"verdict": v, "signature": f"c14.{sig}", "what": text}
+            wall = (t1 - t0) * 1000.0
+            cpu = (cpu1 - cpu0) / 1e6 if cpu0 is not None and cpu1 is not None else None
+            with e.cv:
+                depths = [int(x.split()[2]) for _, x in e.out_lines[n:] if x.startswith("info depth ")]
+            if depths and max(depths) >= 200:
+                return {"verdict": "inconclusive", "what": "search ran out of depth before the move time"}
+            if wall < 0.9 * mt - 20:
+                r = {"verdict": "violated", "signature": "c14.movetime-not-as-given.early",
+                     "what": f"'go movetime {mt}' with Move Overhead {overhead}: the move came back after {wall:.0f} ms (max depth reported {max(depths) if depths else 0})"}
+            elif cpu is not None and cpu > mt + 500:
+                r = {"verdict": "violated", "signature": "c14.movetime-not-as-given.late",
+                     "what": f"'go movetime {mt}' with Move Overhead {overhead}: {cpu:.0f} ms of CPU time consumed"}
+        finally:
+            e.close()
+        return r
+
+    mt_cases = []
+    for _ in range(60 if thorough else 8):
+        mt_cases.append((rng.choice(positions), rng.choice([0, 100, 1000, 1000]), rng.choice([300, 800, 1500])))
+
+    def mt_work(c):
+        r = movetime_case(c)
+        with lock:
+            out.evaluations += 1
+            out.features["movetime_with_overhead_cases"] = out.features.get("movetime_with_overhead_cases", 0) + 1
+            if r["verdict"] == "violated":
+                out.add_violation("movetime-release", r["signature"], r["what"], {"kind": "py", "check": "c14-movetime", "case": [c[0], c[1], c[2]]})
+            elif r["verdict"] == "inconclusive":
+                out.add_inconclusive({"stage": "movetime-release", "what": r["what"]})
+
+    with ThreadPoolExecutor(max_workers=4) as ex:
+        list(ex.map(mt_work, mt_cases))
     out.groups["c14-timed"] = len({(c[0]["fen"], c[1], c[2], c[3]) for c in cases})
     if margins:
         worst = max(margins)
@@ -518,6 +571,96 @@ def c04_stage(out, tier, seed):
 
 
 # ---------------------------------------------------------------------------------------
+# C08 — process-level: the 'info ... pv ...' lines the real binary prints
+
+INFO_RE = re.compile(r"^info depth (\d+) .*?score (cp|mate) (-?\d+) .*? pv (.+)$")
+
+
+def c08_session(binary, plan):
+    """plan: list of (pos, depth). Returns text blocks for the oracle."""
+    e = Engine(binary)
+    blocks = []
+    try:
+        e.send("setoption name Hash value 16")
+        settle(e, 60)
+        for (pos, depth, newgame) in plan:
+            if newgame:
+                e.send("ucinewgame")
+            e.send(position_cmd(pos["root"], pos["moves"]))
+            n = e.n_out()
+            e.send(f"go depth {depth}")
+            got = e.wait_line(lambda x: x.startswith("bestmove"), n, 120.0)
+            if got is None:
+                break
+            with e.cv:
+                lines = [x for _, x in e.out_lines[n:got[0]]]
+            blk = [f"search\t{pos['root']}\t{pos['moves']}\t{depth}"]
+            for x in lines:
+                m = INFO_RE.match(x)
+                if m:
+                    blk.append(f"info\t{m.group(1)}\t{m.group(2)}\t{m.group(3)}\t{m.group(4)}")
+                elif x.startswith("info depth"):
+                    blk.append(f"info\t{x.split()[2]}\tcp\t0\t")  # a line without pv: the oracle flags the empty line
+            blocks.append((pos, depth, blk))
+    finally:
+        e.close()
+    return blocks
+
+
+def c08_stage(out, tier, seed):
+    import os  # noqa: PLC0415
+    import subprocess  # noqa: PLC0415
+    thorough = tier == "thorough"
+    harness = vc.build_harness("checked")
+    bins = [("release", vc.build_repo("release"))]
+    if thorough:
+        bins.append(("debug", vc.build_repo("debug")))
+    positions = oracle_positions(harness, 200 if thorough else 60, seed + 8)
+    mates = []
+    for f in ["8/6k1/8/2R5/8/1K6/3Q1p2/8 w - - 1 25", "8/8/8/8/8/2k5/8/K2Q4 w - - 0 1", "7k/8/5K2/8/8/8/8/6Q1 w - - 0 1",
+              "8/8/8/8/8/5k2/8/4K2r b - - 0 1", "k7/2Q5/8/2K5/8/8/8/8 w - - 10 1", "6k1/5ppp/8/8/8/8/8/R3K3 w Q - 0 1",
+              "r5k1/5ppp/8/8/8/8/5PPP/4R1K1 w - - 0 1", "8/8/8/8/8/6k1/4q3/7K w - - 0 1"]:
+        mates.append({"root": f, "moves": "", "fen": f, "legal": []})
+    rng = random.Random(seed * 71 + 8)
+    sessions = []
+    for i in range(80 if thorough else 16):
+        plan = []
+        for _ in range(rng.randint(4, 10)):
+            pos = rng.choice(mates) if rng.random() < 0.35 else rng.choice(positions)
+            plan.append((pos, rng.choice([1, 3, 5, 6, 7, 8] if pos in mates else [1, 2, 4, 5, 6]), rng.random() < 0.15))
+        sessions.append((bins[i % len(bins)], plan))
+    with ThreadPoolExecutor(max_workers=10) as ex:
+        results = list(ex.map(lambda s: (s[0][0], c08_session(s[0][1], s[1])), sessions))
+    all_blocks = []
+    owners = []
+    for bname, blocks in results:
+        for (pos, depth, blk) in blocks:
+            all_blocks.extend(blk)
+            owners.append((bname, pos, depth))
+    path = os.path.join(vc.BUILD, "tmp", f"c08-lines-{seed}.txt")
+    open(path, "w").write("\n".join(all_blocks) + "\n")
+    p = subprocess.run([harness, "oracle", "checklines", "--file", path], capture_output=True, text=True, timeout=600)
+    if p.returncode != 0:
+        out.errors.append(f"oracle checklines failed: {p.stderr[-400:]}")
+        return
+    for line in p.stdout.splitlines():
+        f = line.split("\t")
+        if f[0] == "bad":
+            bname, pos, depth = owners[int(f[1])]
+            out.add_violation(f"lines-binary-{bname}", f[2], f"{f[3][:400]} ['go depth {depth}' on {pos['fen']}]",
+                              {"kind": "py", "check": "c08", "binary": bname, "pos": pos, "depth": depth})
+        elif f[0] == "checked":
+            out.evaluations += int(f[1])
+            out.features["binary_searches_checked"] = int(f[1])
+            out.features["binary_info_lines"] = int(f[2])
+            out.features["binary_mate_announcements"] = int(f[3])
+    out.groups["c08-binary"] = len({(o[0], o[1]["fen"], o[2]) for o in owners})
+    out.rules.append("process-level: every 'info depth .. score .. pv ..' line printed by the real binary for fixed-depth "
+                     "searches (tables reused across a session) is judged by the same oracle")
+    out.stage_info.append({"stage": "lines-binary", "searches": len(owners)})
+
+
+# ---------------------------------------------------------------------------------------
 # C06 — process-level: 'position fen <hostile text>' must give a position or a reported error
 
 def c06_stage(out, tier, seed):
@@ -619,8 +762,10 @@ def c12_stage(out, tier, seed):
         settle(a, 60)
         ta = transcript(a, target, depth)
         a.close()
-        # engine with a history, then ucinewgame
-        b = Engine(binary)
+        # engine with a history, then ucinewgame. Half of the comparisons hold the window between
+        # "bestmove printed" and "search thread done" open (hook H3), with ucinewgame sent at once.
+        delayed = i % 2 == 1
+        b = Engine(binary, {"VERIF_UCI_DELAYS": "go.after_bestmove=30,go.after_latch_set=30"} if delayed else None)
         b.send(f"setoption name Hash value {hash_mb}")
         settle(b, 60)
         hist = []
@@ -637,6 +782,8 @@ def c12_stage(out, tier, seed):
         with lock:
             out.evaluations += 1
             out.features["binary_ucinewgame_comparisons"] = out.features.get("binary_ucinewgame_comparisons", 0) + 1
+            if delayed:
+                out.features["binary_ucinewgame_right_after_bestmove_with_delay"] = out.features.get("binary_ucinewgame_right_after_bestmove_with_delay", 0) + 1
             if ta is None or tb is None:
                 if crashed:
                     out.features["binary_crash_not_judged_here"] = out.features.get("binary_crash_not_judged_here", 0) + 1
